@@ -113,6 +113,8 @@ impl SampleQueueSender {
             return Err(());
         }
 
+        #[cfg(rustrtc_verif)]
+        crate::verif_sched::yield_point(crate::verif_sched::SRC_PUSH_LOCK);
         let _push_guard = self.push_lock.lock();
         let sample = match self.queue.push(sample) {
             Ok(()) => {
@@ -149,6 +151,8 @@ impl SampleQueueSender {
             return Err(sample);
         }
 
+        #[cfg(rustrtc_verif)]
+        crate::verif_sched::yield_point(crate::verif_sched::SRC_PUSH_LOCK);
         let _push_guard = self.push_lock.lock();
         match self.queue.push(sample) {
             Ok(()) => {
